@@ -1,128 +1,7 @@
-(* modelrun: runs the extracted Coq model on the same case lines as implrun and prints
-     R <id> <result>
-   Hand-written glue (trusted): parsing of case lines, conversion int <-> N/nat, printing. *)
-open Model
-
-(* ---------- conversions ---------- *)
-let rec pos_of_int (i : int) : positive =
-  if i = 1 then XH else if i land 1 = 1 then XI (pos_of_int (i lsr 1)) else XO (pos_of_int (i lsr 1))
-let n_of_int (i : int) : n = if i = 0 then N0 else Npos (pos_of_int i)
-let rec int_of_pos (p : positive) : int =
-  match p with XH -> 1 | XO q -> 2 * int_of_pos q | XI q -> 2 * int_of_pos q + 1
-let int_of_n (x : n) : int = match x with N0 -> 0 | Npos p -> int_of_pos p
-let rec nat_of_int (i : int) : nat = if i <= 0 then O else S (nat_of_int (i - 1))
-let int_of_nat (x : nat) : int = let rec go acc = function O -> acc | S m -> go (acc + 1) m in go 0 x
-
-let bytes_of_hex (s : string) : n list =
-  if s = "-" || s = "" then [] else begin
-    let l = String.length s / 2 in
-    let rec go i acc = if i < 0 then acc else go (i - 1) (n_of_int (int_of_string ("0x" ^ String.sub s (2 * i) 2)) :: acc) in
-    go (l - 1) []
-  end
-let hex_of_bytes (l : n list) : string =
-  if l = [] then "-" else begin
-    let b = Buffer.create 64 in
-    List.iter (fun x -> Buffer.add_string b (Printf.sprintf "%02x" (int_of_n x))) l;
-    Buffer.contents b
-  end
-
-let fields (parts : string list) : (string * string) list =
-  List.filter_map (fun p -> match String.index_opt p '=' with
-    | Some i -> Some (String.sub p 0 i, String.sub p (i + 1) (String.length p - i - 1))
-    | None -> None) parts
-let fld f k = try List.assoc k f with Not_found -> failwith ("missing field " ^ k)
-let fld_opt f k = try Some (List.assoc k f) with Not_found -> None
-let ifld f k = int_of_string (fld f k)
-
-(* ---------- kind: fallback (C16) ---------- *)
-let run_fallback (parts : string list) : string =
-  let f = fields parts in
-  let udp = match fld f "udp" with
-    | "plain" -> Some (false, n_of_int 1) | "tc" -> Some (true, n_of_int 12) | _ -> None in
-  let tcp = match fld f "tcp" with "reply" -> Some (false, n_of_int 2) | _ -> None in
-  let (r, attempts) = fb_run udp tcp in
-  let res = match r with
-    | None -> "ERR"
-    | Some (true, _) -> "TRUNCATED"
-    | Some (false, m) -> (match int_of_n m with 1 -> "U" | 2 -> "T" | _ -> "?") in
-  let a = int_of_nat attempts in
-  Printf.sprintf "res=%s tcpq=%d udpq=1 sameq=%s" res a (if a > 0 then "1" else "-")
-
-(* ---------- canonical message dump (same format as harness/cmd/implrun/codec.go) ---------- *)
-let b2i b = if b then 1 else 0
-let istr x = string_of_int (int_of_n x)
-let dump_rr (r : rr) : string =
-  let hd = Printf.sprintf "%s,%s,%s,%s,%s," (hex_of_bytes r.r_name) (istr r.r_type) (istr r.r_class) (istr r.r_ttl) (istr r.r_len) in
-  hd ^ (match r.r_data with
-    | RA a -> "A:" ^ hex_of_bytes a
-    | RAAAA a -> "AAAA:" ^ hex_of_bytes a
-    | RName nm -> "N:" ^ hex_of_bytes nm
-    | RSOA (ns, mb, a, b, c, d, e) -> Printf.sprintf "SOA:%s,%s,%s,%s,%s,%s,%s" (hex_of_bytes ns) (hex_of_bytes mb) (istr a) (istr b) (istr c) (istr d) (istr e)
-    | RMX (p, mx) -> Printf.sprintf "MX:%s,%s" (istr p) (hex_of_bytes mx)
-    | RSRV (a, b, c, t) -> Printf.sprintf "SRV:%s,%s,%s,%s" (istr a) (istr b) (istr c) (hex_of_bytes t)
-    | RRaw d -> "RAW:" ^ hex_of_bytes d)
-let dump_msg (m : msg) : string =
-  let h = m.m_hdr in
-  let hs = Printf.sprintf "H%s,%d,%s,%d,%d,%d,%d,%d,%d,%s" (istr h.h_id) (b2i h.h_resp) (istr h.h_opcode) (b2i h.h_aa)
-      (b2i h.h_tc) (b2i h.h_rd) (b2i h.h_ra) (b2i h.h_ad) (b2i h.h_cd) (istr h.h_rcode) in
-  let qs = String.concat ";" (List.map (fun q -> Printf.sprintf "%s,%s,%s" (hex_of_bytes q.q_name) (istr q.q_type) (istr q.q_class)) m.m_qs) in
-  let sec l = String.concat ";" (List.map dump_rr l) in
-  hs ^ "|Q" ^ qs ^ "|AN" ^ sec m.m_an ^ "|NS" ^ sec m.m_ns ^ "|AR" ^ sec m.m_ar
-
-let res_class (r : 'a res) (okf : 'a -> string) : string =
-  match r with Ok a -> okf a | Err _ -> "ERR" | Panic -> "PANIC!" | OutOfFuel -> "HANG"
-
-(* ---------- kind: decode (C01) ---------- *)
-let run_decode parts =
-  let f = fields parts in
-  let bs = bytes_of_hex (fld f "msg") in
-  res_class (unpack_msg bs) (fun m -> "OK " ^ dump_msg m)
-
-let spec_reason (ok : bool) (out : n list) : string =
-  if ok then "ok" else
-  match unpack_msg out with
-  | Err ETooManyPtr -> "FAIL:redecode-toomanyptr"
-  | Err _ -> "FAIL:redecode-err"
-  | Ok _ -> "FAIL:content"
-  | _ -> "FAIL:redecode-unsafe"
-
-(* ---------- kind: pack (C02 / C09) ---------- *)
-let run_pack parts =
-  let f = fields parts in
-  let bs = bytes_of_hex (fld f "msg") in
-  let c = fld f "c" = "1" in
-  let size = ifld f "size" in
-  match unpack_msg bs with
-  | Ok m ->
-    let r = pack_msg (msg_len m) c (nat_of_int size) m in
-    let out = res_class r (fun o -> "OK " ^ hex_of_bytes o) in
-    let spec = (match r with
-      | Ok o -> spec_reason (if size = 0 then spec_pack c m o else spec_packsize c (nat_of_int size) m o) o
-      | _ -> "ok") in
-    out ^ " || spec=" ^ spec
-  | Err _ -> "UNDECODABLE"
-  | Panic -> "PANIC!" | OutOfFuel -> "HANG"
-
-(* oracle on bytes produced by the implementation *)
-let run_packspec parts =
-  let f = fields parts in
-  let bs = bytes_of_hex (fld f "msg") in
-  let out = bytes_of_hex (fld f "out") in
-  let c = fld f "c" = "1" in
-  let size = ifld f "size" in
-  match unpack_msg bs with
-  | Ok m -> let ok = if size = 0 then spec_pack c m out else spec_packsize c (nat_of_int size) m out in
-    "spec=" ^ spec_reason ok out
-  | _ -> "spec=ok"
+(* modelrun main: dispatch on the kind given as argv[1]; kinds are registered by the drv_*.ml modules *)
+open Drv_common
 
 (* ---------- dispatch ---------- *)
-let kinds : (string * (string list -> string)) list ref = ref [
-  ("fallback", run_fallback);
-  ("decode", run_decode);
-  ("pack", run_pack);
-  ("packspec", run_packspec);
-]
-
 let () =
   let kind = Sys.argv.(1) in
   let fn = try List.assoc kind !kinds with Not_found -> (prerr_endline ("unknown kind " ^ kind); exit 2) in
